@@ -9,7 +9,10 @@ TB = ("Lean 4.33.0 kernel; axioms per theorem audited each run (#print axioms ‚ä
       "no sorry/admit/native_decide/own axioms; tools/translate.py (data copied from source); the correspondence harness.")
 
 CHECKS = {}
+READY = set((V / "tools" / "manifest" / "READY").read_text().split())     # accepted by the lead after running on clean /repo
 for _f in sorted((V / "tools" / "manifest").glob("C*.json")):
+    if _f.stem not in READY:
+        continue
     _d = json.load(open(_f))
     _d["note"] = TB + " " + _d.get("note", "")
     CHECKS[_f.stem] = _d
